@@ -77,7 +77,7 @@ class ParserConfig(Config):
         if not self.memoization:
             self.left_recursion = False
 
-        if self.namechars:
+        if self.namechars and self.nameguard is None:
             self.nameguard = True
 
         if isinstance(self.semantics, type):
